@@ -113,4 +113,10 @@ CHECKS['C18'] = {
     'design_ref': 'DESIGN.md §4 C18',
 }
 
+CHECKS['C20'] = {
+    'technique': 'static analysis: ids-are-only-compared dataflow rule with a no-ordering impl table, position-provenance rule for every Indexed, sort-before-use rule on aggregated tuples, ordered-output type rule, vendored-table agreement (thorough)',
+    'text': 'Static rule instances over the MIR and HIR tables of crux_cli::codegen: rustdoc ids are only compared for equality or hashed and the node types have no ordering (invariance under renumbering for code of this shape); every Indexed index is the position in the declared, non-skipped member list; every helper sorts its aggregated tuples or keys them by index; outputs are BTreeMaps; the thorough tier compares the vendored rename-rule table and Format declarations with the pinned serde_derive / serde-reflection sources as parsed tables. NOT decided: closedness (input dependent), agreement with serde-reflection\'s tracing, invariance under crate loading order, and name clashes.',
+    'design_ref': 'DESIGN.md §4 C20',
+}
+
 PENDING_REASON = 'check not yet armed in this framework (static rules designed in DESIGN.md §4; implementation in progress)'
